@@ -127,85 +127,89 @@ def neededSize (msgLen bufLen peer : Nat) : Nat :=
   let n := (msgLen + u32 - bufLen) % u32
   if n > peer then peer else n
 
-/-- One iteration of the `for` loop of `RunLoop`: one chunk. -/
-def readChunk (c : Composer) (inp : Bytes) : Res :=
-  match inp with
-  | [] => .eof
+/-- §5.3.1.1 as `RunLoop` reads it: format, chunk stream id, rest -/
+def parseBasic : Bytes → Option (Nat × Nat × Bytes)
+  | [] => none
   | b0 :: r0 =>
     let fmt := b0.toNat / 64
     let c6 := b0.toNat % 64
-    -- basic header
-    let bh : Option (Nat × Bytes) :=
-      if c6 = 0 then (match r0 with | x :: r => some (64 + x.toNat, r) | _ => none)
-      else if c6 = 1 then (match r0 with | x :: y :: r => some (64 + x.toNat + y.toNat * 256, r) | _ => none)
-      else some (c6, r0)
-    match bh with
+    if c6 = 0 then (match r0 with | x :: r => some (fmt, 64 + x.toNat, r) | _ => none)
+    else if c6 = 1 then (match r0 with | x :: y :: r => some (fmt, 64 + x.toNat + y.toNat * 256, r) | _ => none)
+    else some (fmt, c6, r0)
+
+/-- the `switch fmt` that reads the message header into the stream -/
+def parseMsgHeader (fmt : Nat) (s : Stream) (r1 : Bytes) : Option (Stream × Bytes) :=
+  if fmt = 0 then
+    (match r1 with
+     | t0 :: t1 :: t2 :: l0 :: l1 :: l2 :: ty :: i0 :: i1 :: i2 :: i3 :: r =>
+       let ts := rd24 t0 t1 t2
+       some ({ s with timestamp := ts, absTsFlag := true,
+                      hdr := { s.hdr with ts := ts, msgLen := rd24 l0 l1 l2, typ := ty.toNat,
+                                          msid := rd32 i3 i2 i1 i0 } }, r)
+     | _ => none)
+  else if fmt = 1 then
+    (match r1 with
+     | t0 :: t1 :: t2 :: l0 :: l1 :: l2 :: ty :: r =>
+       some ({ s with timestamp := rd24 t0 t1 t2,
+                      hdr := { s.hdr with msgLen := rd24 l0 l1 l2, typ := ty.toNat } }, r)
+     | _ => none)
+  else if fmt = 2 then
+    (match r1 with
+     | t0 :: t1 :: t2 :: r => some ({ s with timestamp := rd24 t0 t1 t2 }, r)
+     | _ => none)
+  else some (s, r1)
+
+/-- the extended timestamp step (`if stream.timestamp >= maxTimestampInMessageHeader`) -/
+def parseExt (fmt : Nat) (s1 : Stream) (r2 : Bytes) : Option (Stream × Bytes) :=
+  if s1.timestamp ≥ maxTs then
+    (match r2 with
+     | e0 :: e1 :: e2 :: e3 :: r =>
+       let nts := rd32 e0 e1 e2 e3
+       let abs :=
+         if fmt = 0 then nts
+         else if fmt = 1 ∨ fmt = 2 then (s1.hdr.ts + u32 - maxTs + nts) % u32
+         else s1.hdr.ts
+       some ({ s1 with timestamp := nts, hdr := { s1.hdr with ts := abs } }, r)
+     | _ => none)
+  else some (s1, r2)
+
+/-- chunk data read into the stream and, when the message is complete, the callback(s) -/
+def takeBody (c : Composer) (csid : Nat) (s2 : Stream) (r3 : Bytes) : Res :=
+  let need := neededSize s2.hdr.msgLen s2.buf.length c.peerChunkSize
+  if r3.length < need then .eof else
+  let s3 := { s2 with buf := s2.buf ++ r3.take need }
+  let rest := r3.drop need
+  if s3.buf.length = s3.hdr.msgLen then
+    let peer :=
+      if s3.hdr.typ = 1 then
+        (match s3.buf with
+         | a :: b :: c' :: d :: _ => rd32 a b c' d
+         | _ => c.peerChunkSize)
+      else c.peerChunkSize
+    let abs := if s3.absTsFlag then s3.hdr.ts else (s3.hdr.ts + s3.timestamp) % u32
+    let h : Header := { s3.hdr with csid := csid, ts := abs }
+    if s3.hdr.typ = 22 then
+      let (ms, good) := aggregate csid abs s3.buf.length s3.buf none []
+      if good then
+        .ok ({ c with peerChunkSize := peer }.set csid { s3 with hdr := h, absTsFlag := false, buf := [] }) ms rest
+      else .fail ms
+    else
+      .ok ({ c with peerChunkSize := peer }.set csid { s3 with hdr := h, absTsFlag := false, buf := [] })
+          [{ hdr := h, payload := s3.buf }] rest
+  else if s3.buf.length > s3.hdr.msgLen then .fail []
+  else .ok (c.set csid s3) [] rest
+
+/-- One iteration of the `for` loop of `RunLoop`: one chunk. -/
+def readChunk (c : Composer) (inp : Bytes) : Res :=
+  match parseBasic inp with
+  | none => .eof
+  | some (fmt, csid, r1) =>
+    match parseMsgHeader fmt (c.get csid) r1 with
     | none => .eof
-    | some (csid, r1) =>
-      let s := c.get csid
-      -- message header
-      let mh : Option (Stream × Bytes) :=
-        if fmt = 0 then
-          (match r1 with
-           | t0 :: t1 :: t2 :: l0 :: l1 :: l2 :: ty :: i0 :: i1 :: i2 :: i3 :: r =>
-             let ts := rd24 t0 t1 t2
-             some ({ s with timestamp := ts, absTsFlag := true,
-                            hdr := { s.hdr with ts := ts, msgLen := rd24 l0 l1 l2, typ := ty.toNat,
-                                                msid := rd32 i3 i2 i1 i0 } }, r)
-           | _ => none)
-        else if fmt = 1 then
-          (match r1 with
-           | t0 :: t1 :: t2 :: l0 :: l1 :: l2 :: ty :: r =>
-             some ({ s with timestamp := rd24 t0 t1 t2,
-                            hdr := { s.hdr with msgLen := rd24 l0 l1 l2, typ := ty.toNat } }, r)
-           | _ => none)
-        else if fmt = 2 then
-          (match r1 with
-           | t0 :: t1 :: t2 :: r => some ({ s with timestamp := rd24 t0 t1 t2 }, r)
-           | _ => none)
-        else some (s, r1)
-      match mh with
+    | some (s1, r2) =>
+      match parseExt fmt s1 r2 with
       | none => .eof
-      | some (s1, r2) =>
-        -- extended timestamp
-        let ext : Option (Stream × Bytes) :=
-          if s1.timestamp ≥ maxTs then
-            (match r2 with
-             | e0 :: e1 :: e2 :: e3 :: r =>
-               let nts := rd32 e0 e1 e2 e3
-               let abs :=
-                 if fmt = 0 then nts
-                 else if fmt = 1 ∨ fmt = 2 then (s1.hdr.ts + u32 - maxTs + nts) % u32
-                 else s1.hdr.ts
-               some ({ s1 with timestamp := nts, hdr := { s1.hdr with ts := abs } }, r)
-             | _ => none)
-          else some (s1, r2)
-        match ext with
-        | none => .eof
-        | some (s2, r3) =>
-          let need := neededSize s2.hdr.msgLen s2.buf.length c.peerChunkSize
-          if r3.length < need then .eof else
-          let s3 := { s2 with buf := s2.buf ++ r3.take need }
-          let rest := r3.drop need
-          if s3.buf.length = s3.hdr.msgLen then
-            let peer :=
-              if s3.hdr.typ = 1 then
-                (match s3.buf with
-                 | a :: b :: c' :: d :: _ => rd32 a b c' d
-                 | _ => c.peerChunkSize)
-              else c.peerChunkSize
-            let abs := if s3.absTsFlag then s3.hdr.ts else (s3.hdr.ts + s3.timestamp) % u32
-            let h : Header := { s3.hdr with csid := csid, ts := abs }
-            if s3.hdr.typ = 22 then
-              let (ms, good) := aggregate csid abs s3.buf.length s3.buf none []
-              if good then
-                .ok ({ c with peerChunkSize := peer }.set csid { s3 with hdr := h, absTsFlag := false, buf := [] }) ms rest
-              else .fail ms
-            else
-              .ok ({ c with peerChunkSize := peer }.set csid { s3 with hdr := h, absTsFlag := false, buf := [] })
-                  [{ hdr := h, payload := s3.buf }] rest
-          else if s3.buf.length > s3.hdr.msgLen then .fail []
-          else .ok (c.set csid s3) [] rest
+      | some (s2, r3) => takeBody c csid s2 r3
 
 /-- outcome of feeding a whole byte string to `RunLoop` (the reader then reports EOF) -/
 structure Run where
